@@ -152,6 +152,13 @@ theorem K_call (sy : Bool) (cap : Nat) (f : Plan) (s : St) (c : Call) (hk : K s)
     | some w =>
       simp only
       split <;> simp [K, releaseLock]
+  | waitMerges =>
+    simp only [call]
+    cases hs : s.writer with
+    | none => simp [K, hs]
+    | some w =>
+      simp only
+      split <;> simp [K, releaseLock]
   | merge =>
     simp only [call]
     cases hs : s.writer with
@@ -442,6 +449,18 @@ theorem stale_call (sy : Bool) (cap : Nat) (f : Plan) (hf : LockSafe f) (s : St)
         · simp only [Bool.not_eq_eq_eq_not, Bool.not_true, Bool.not_eq_false] at hg
           simpa [stale, freshWriter, hg] using h
   | dropWriter =>
+    simp only [call]
+    cases hs : s.writer with
+    | none => simpa [hs] using h
+    | some w =>
+      simp only [stale, hs] at h
+      simp only
+      split
+      · simp [stale, releaseLock, hf2]
+      · rename_i hg
+        simp only [Bool.not_eq_true] at hg
+        simpa [stale, hg] using h
+  | waitMerges =>
     simp only [call]
     cases hs : s.writer with
     | none => simpa [hs] using h
